@@ -1,4 +1,5 @@
 import O4.Lemmas.HandshakeClient
+import O4.Generated.Facts.Obfs4
 import O4.Lemmas.Obfs4Ref
 import O4.Lemmas.Symbolic
 /-!
@@ -962,5 +963,21 @@ example (P : Ntor.Prims) (ρ : Sym.Name → Bytes) (base id : Bytes) (dat : Nat 
     interp P ρ base id dat (pub .b) = P.x25519 (ρ .b) base := ⟨rfl, rfl⟩
 
 end Symbolic
+
+/-- **structural facts, regenerated from the Go source on every run (go/ast call sets)**: the
+    ephemeral session key is generated (`ntor.NewKeypair`) in every `ParseArgs` (client) and in
+    every `WrapConn` (server), never once per factory — what `fresh_keys` assumes about where the
+    random stream is consumed; and the client verifies MAC and AUTH in `parseServerHandshake`
+    (`hmac.Equal`, `ntor.CompareAuth`) before `clientHandshake` installs the link keys
+    (`framing.NewEncoder`/`NewDecoder` are called there, not in the parser). -/
+theorem fresh_keys_structure :
+    "ntor.NewKeypair" ∈ O4.Facts.Obfs4.obfs4ClientFactory_ParseArgs_calls ∧
+    "ntor.NewKeypair" ∈ O4.Facts.Obfs4.obfs4ServerFactory_WrapConn_calls ∧
+    "ntor.NewKeypair" ∉ O4.Facts.Obfs4.Transport_ServerFactory_calls ∧
+    "hmac.Equal" ∈ O4.Facts.Obfs4.clientHandshake_parseServerHandshake_calls ∧
+    "ntor.CompareAuth" ∈ O4.Facts.Obfs4.clientHandshake_parseServerHandshake_calls ∧
+    "framing.NewDecoder" ∉ O4.Facts.Obfs4.clientHandshake_parseServerHandshake_calls ∧
+    "framing.NewDecoder" ∈ O4.Facts.Obfs4.obfs4Conn_clientHandshake_calls := by
+  decide
 
 end C02
